@@ -138,9 +138,9 @@ def main():
               [(rng.randint(0, 4), rng.randint(0, 4), rng.randint(0, 4)) for _ in range(6)]]
 
     def gen_op(cur, single):
-        choices = ["slice", "int"]
+        choices = ["slice", "int", "filter", "filter"]      # a clause can be added to a column stream, too
         if not single:
-            choices += ["cols", "cols", "col", "filter", "filter"]
+            choices += ["cols", "cols", "col"]
         k = rng.choice(choices)
         if k == "cols":
             return ("cols", tuple(rng.sample(cur, rng.randint(1, len(cur)))))
@@ -181,15 +181,22 @@ def main():
         visible_ok = True
         for op in ch:
             try:
-                if op[0] in ("cols", "col", "filter") and single:
+                if op[0] in ("cols", "col") and single:
                     raise KeyError("not a sequence any more")
                 if op[0] == "col" and op[1] not in cur:
                     visible_ok = False
                 if op[0] == "cols" and any(c not in cur for c in op[1]):
                     raise KeyError("hidden column")
-                d = apply(d0, d, op)
-            except Exception:
+            except KeyError:
                 ok = False
+                break
+            try:
+                d = apply(d0, d, op)
+            except Exception as e:  # noqa
+                ok = False
+                if visible_ok:
+                    direct.append({"law": "a step of a valid chain returns a new stream", "header": hd, "rows": rows, "chain": repr(ch),
+                                   "failing_step": repr(op), "csv_backed": type(d0).__name__, "error": repr(e)[:200]})
                 break
             if op[0] == "col":
                 single, cur = True, [op[1]]
